@@ -115,6 +115,18 @@ def handle (fn : String) (a : Json) : Option (Except String Json) :=
       match cutDef wb.toList sec.toList item.toList with
       | some r => pure (Json.str (String.ofList r))
       | none => pure Json.null
+  | "lang.cutVerified" => some do
+      -- {"wb","sec","name","known": member known?, "cutParses": the cut text parses to the member?, "dump": text}
+      let wb ← a.getObjValAs? String "wb"
+      let sec ← a.getObjValAs? String "sec"
+      let name ← a.getObjValAs? String "name"
+      let known ← a.getObjValAs? Bool "known"
+      let cp ← a.getObjValAs? Bool "cutParses"
+      let dump ← a.getObjValAs? String "dump"
+      let Y : Yaml Unit := { parse := fun _ => if cp then some () else none, dump := fun _ => dump.toList }
+      match memberDefinition Y wb.toList sec.toList name.toList (if known then some () else none) with
+      | some r => pure (Json.str (String.ofList r))
+      | none => pure Json.null
   | "lang.witness" => some do
       let n ← a.getObjValAs? String "name"
       match n with
